@@ -949,6 +949,7 @@ func run(rr *mon.Run) {
 	r.Observe("phantom_success_known_pattern", nPhantomKnown)
 	r.Observe("reconnects_between_exchanges", nReconnects)
 	r.Assume("the gateway model (internal/gateway) follows the tunnelling rules; faults are applied to tunnelling frames only")
+	r.Assume("the gateway assigns a fresh channel id to every connection: a datagram of an earlier connection that carries the current channel id and a current number is indistinguishable on the wire, so no client can satisfy the property against a gateway that reuses the id while old datagrams are still in flight")
 	r.Assume("bounded fault patterns against the real modulus-256 client; the composed state space is sampled and enumerated to the stated bounds, not exhausted")
 	if nBus == 0 || nInbound == 0 {
 		r.Broken("nothing reached the bus / the application")
